@@ -72,7 +72,18 @@ func newAPI4(s *Sim, conn net.PacketConn) *api4 {
 		// the stack nclient4.New builds: the client on its raw-socket layer, bound to the client port
 		conn = nclient4.NewBroadcastUDPConn(&rawAdapter{f: conn.(*fakeConn), n: uint32(s.rng.Int63())}, &net.UDPAddr{Port: 68})
 	}
-	c, err := nclient4.NewWithConn(conn, mac, opts...)
+	// the client's hardware address: the one it is constructed with, or the one WithHWAddr gives it afterwards (the
+	// constructor's - the interface's - is then another address: otherMac, which the wronghw datagrams carry; or none)
+	ctorMac := mac
+	switch s.cfg.ReadErrKind % 3 {
+	case 1:
+		ctorMac = otherMac
+		opts = append(opts, nclient4.WithHWAddr(mac))
+	case 2:
+		ctorMac = nil
+		opts = append(opts, nclient4.WithHWAddr(mac))
+	}
+	c, err := nclient4.NewWithConn(conn, ctorMac, opts...)
 	if err != nil {
 		panic(err)
 	}
